@@ -91,6 +91,39 @@ def run(ctx):
             out = "raised %s: %s" % (type(e).__name__, str(e)[:120])
         if out != want:
             ctx.violation({"template": src, "rendered": out, "expected": want}, "def / call semantics", tags=["c05.oracle." + tag])
+    # attribute values of a call with content, generated: literal pieces (blank ones included) and ${} pieces in every order
+    LITS = [" ", "  ", "\n", "\t", "", "x", "a b", "-", " y ", "1"]
+    natt = 150 if tier == "quick" else 5000
+    attr_shapes = {}
+    for _ in range(natt):
+        pieces = []
+        for _k in range(rng.randint(1, 5)):
+            if rng.random() < 0.5:
+                pieces.append(("lit", rng.choice(LITS)))
+            else:
+                pieces.append(("expr", rng.choice(["s1", "s2", "str(n)", "s1.upper()"])))
+        # two literal pieces side by side are one literal piece
+        text = "".join(v if k == "lit" else "${%s}" % v for k, v in pieces)
+        env = {"s1": "p", "s2": " ", "n": 7}
+        nonempty = [(k, v) for k, v in pieces if not (k == "lit" and v == "")]
+        if len(nonempty) == 1 and nonempty[0][0] == "expr":
+            want_v = eval(nonempty[0][1], {}, env)
+        else:
+            want_v = "".join(v if k == "lit" else str(eval(v, {}, env)) for k, v in pieces)
+        closing = rng.random() < 0.5
+        src = '<%def name="f(a)">${repr(a)}</%def>' + ('<%%self:f a="%s"/>' % text if closing else '<%%self:f a="%s">body</%%self:f>' % text)
+        shape = "".join("L" if k == "lit" and v.strip() else ("B" if k == "lit" else "E") for k, v in pieces)
+        attr_shapes[shape] = attr_shapes.get(shape, 0) + 1
+        ctx.evaluations += 1
+        ctx.nontrivial.add(src)
+        try:
+            out = Template(src).render(**env)
+        except Exception as e:  # noqa
+            out = "raised %s: %s" % (type(e).__name__, str(e)[:120])
+        if out != repr(want_v):
+            ctx.violation({"template": src, "context": env, "the_def_received": out, "expected": repr(want_v)},
+                          "attribute values of a call with content: literal text as strings, ${} as values, mixtures concatenated in order", tags=["c05.oracle.attr-generated"])
+    ctx.generators["call_attribute_values"] = {"cases": natt, "shapes (L literal, B blank literal, E expression)": len(attr_shapes)}
     # buffer_filters apply to buffered defs
     ctx.evaluations += 1
     try:
